@@ -12,7 +12,7 @@ LEVEL = "model_checking"
 MANIFEST = dict(
    engine="tlc-slotseq", path="spec/SlotSeq",
    technique="TLA+ monitor + implementation model checked exhaustively by TLC; TLC-generated transition cover and random histories replayed into the real SlotSequencer/SlotOffsetter on a real ByteBuffer; recorded traces validated by TLC against the monitor",
-   text="Exhaustive TLC check of SlotSeqImpl (save area of the ByteBuffer as tokens, the Fenwick array with the bit arithmetic of util/fenwick_tree.go, the sorted slot list with its insertion, byte and slot limits, offsetter reset when the sequencer empties, and a caller following the documented workflow Write-Commit-Save-Push ... Pop-SavedSlot-Discard, discarding the just-saved tail after a refused Push, with readable and uncommitted bytes coming and going behind the save area) composed with the monitor SlotSeqMon (save area = concatenation of parked packets in save order, map sequence number -> packet), for all interleavings of pushes (any order, duplicates, all sizes of the bound) and pops (present and absent numbers) of unbounded length, in sequencers that drain and that never do, within and beyond both limits; the same for a bare SlotOffsetter (Add/Offset) with and without reset. Every transition of the state graph is replayed on the real objects and the recorded trace - result of every Push/Pop, SavedSlot(slot) before Discard, Saved()/Data()/write area, Bytes(), Size() after every call - is validated by TLC against the monitor; seeded random long histories with more sequence numbers and larger limits are added, also at 50 bytes per token. Verdicts come only from recorded real-code traces.",
+   text="Exhaustive TLC check of SlotSeqImpl (save area of the ByteBuffer as tokens, the Fenwick array with the bit arithmetic of util/fenwick_tree.go, the sorted slot list with its insertion, byte and slot limits, offsetter reset when the sequencer empties, and a caller following the documented workflow Write-Commit-Save-Push ... Pop-SavedSlot-Discard, discarding the just-saved tail after a refused Push, with readable and uncommitted bytes coming and going behind the save area) composed with the monitor SlotSeqMon (save area = concatenation of parked packets in save order, map sequence number -> packet), for all interleavings of pushes (any order, duplicates, all sizes of the bound) and pops (present and absent numbers) of unbounded length, in sequencers that drain and that never do, within and beyond both limits; the same for a bare SlotOffsetter (Add/Offset) with and without reset. Every transition of the state graph is replayed on the real objects and the recorded trace - result of every Push/Pop, SavedSlot(slot) before Discard, Saved()/Data()/write area, Bytes(), Size() after every call - is validated by TLC against the monitor; in addition a two-round caller (park 4 packets of every size combination, pop any of them in every order, park one or two more, pop everything) is enumerated with the history in the VIEW, so that every continuation is generated behind every distinct pop order (thorough: every order in both rounds, and 5 packets); seeded random long histories with more sequence numbers and larger limits are added, also at 50 bytes per token. Verdicts come only from recorded real-code traces.",
    note="Trusted: TLC, the Go replay driver (block generator/projection), JSON trace I/O. A Push that fails with an error while both limits have room (virtual index space of the offsetter exhausted in a sequencer that never drains) is accepted by the monitor - the statement only demands that limits are reported as errors - and counted in the evidence (outcomes.push_error_within_both_limits). PopRange is unexported and unused; not covered.",
    design_ref="5/C20")
 
@@ -32,9 +32,21 @@ BOUNDS = {   # name -> constants
 }
 
 
+# path-sensitive enumeration (PathSpec): park K packets, pop any of them in every order, park up to M more, pop everything.
+# MaxBytes is large enough for neither the byte limit nor the offsetter's index space to interfere: the point is pop orders.
+PATHS = {
+    "path-4": dict(Mode='"seq"', Seqs="{1, 2, 3, 4, 5, 6}", Sizes="{1, 2}", MaxSlots=4, MaxBytes=16, LiveSizes="{1}", ResetOnEmpty="TRUE",
+                   PathK=4, PathM=2, PathMod=7),
+    "path-4n": dict(Mode='"seq"', Seqs="{1, 2, 3, 4, 5, 6}", Sizes="{1, 2}", MaxSlots=4, MaxBytes=13, LiveSizes="{1}", ResetOnEmpty="TRUE",
+                    PathK=4, PathM=2, PathMod=7),       # Fenwick array whose size is not a power of two
+    "path-5": dict(Mode='"seq"', Seqs="{1, 2, 3, 4, 5, 6, 7}", Sizes="{1, 2}", MaxSlots=5, MaxBytes=16, LiveSizes="{1}", ResetOnEmpty="TRUE",
+                   PathK=5, PathM=2, PathMod=11),
+}
+
+
 def consts(bound, maxhist=0):
     c = dict(BOUNDS[bound])
-    c.update(MaxHist=maxhist, BUG_ResetEarly="FALSE", BUG_NoVirtual="FALSE")
+    c.update(MaxHist=maxhist, BUG_ResetEarly="FALSE", BUG_NoVirtual="FALSE", PathK=0, PathM=0, PathMul=1, PathMod=7, PathAll="FALSE")
     return c
 
 
@@ -125,22 +137,61 @@ def run(ck):
         os.remove(r.outpath)
         _validate(ck, sw, name, beh, "random histories, %s, %d steps, %d bytes per token" % (bound, hist, scale), scale)
 
+    def paths(bound, mul, every_order, scale=1, sample=None):
+        """all histories of the two-round caller (VIEW contains the history: no two pop orders are merged)"""
+        c = dict(PATHS[bound])
+        c.update(MaxHist=0, BUG_ResetEarly="FALSE", BUG_NoVirtual="FALSE", PathMul=mul, PathAll="TRUE" if every_order else "FALSE")
+        cfg = vlib.cfg_with(sw, "SlotSeqImpl_path.cfg", c)
+        r = vlib.tlc(sw, "SlotSeqImpl", cfg, env=HEAP, workers=4, timeout=2400)
+        if not r.ok:
+            raise vlib.Inconclusive("SlotSeqImpl paths %s: %s\n%s" % (bound, r.violated or r.error, r.tail()))
+        ck.add_tlc("SlotSeqImpl every pop order (history in the VIEW), two rounds", r, c)
+        name = "paths_%s_%d" % (bound, mul)
+        beh = os.path.join(ck.work, name + ".jsonl")
+        n = vlib.edges_to_file(r, beh)
+        if n == 0:
+            raise vlib.Inconclusive("paths %s: no histories\n%s" % (bound, r.tail()))
+        os.remove(r.outpath)
+        if sample:
+            # stratified and reproducible: in lexicographic order the histories are grouped by sizes, then first-round pop
+            # order, then what is parked afterwards; every k-th of them, offset by the seed, visits every group
+            with open(beh) as f:
+                lines = sorted(f)
+            lines = lines[ck.seed % sample::sample]
+            with open(beh, "w") as f:
+                f.writelines(lines)
+            n = len(lines)
+        ck.cov.setdefault("pop_order_histories", 0)
+        ck.cov["pop_order_histories"] += n
+        _validate(ck, sw, name, beh, "every pop order, %s, numbers i*%d mod %d%s" % (
+            bound, mul, c["PathMod"], ", every %d-th" % sample if sample else ""), scale)
+
+    mul = (3, 5, 6, 2, 4)[ck.seed % 5]
     if quick:
         # seq-s: the slot limit binds; seq-b: the byte limit binds (and is not shadowed by the offsetter's index check)
         jobs = [(cover, ("seq-s",)), (cover, ("seq-b",)), (cover, ("off-q",)), (cover, ("offn-q",)),
                 (sim, (1, "seq-r", 500, 80)), (sim, (2, "seq-r2", 300, 120, 50)), (sim, (3, "off-r", 300, 80)),
-                (sim, (4, "seq-r3", 300, 80))]
+                (sim, (4, "seq-r3", 300, 80)),
+                # every pop order of 4 parked packets (all sizes), then 1-2 more parked, then any stored number first:
+                # numbers ascending in save order, and one seed-chosen other arrival order with a 13-entry Fenwick array
+                (paths, ("path-4", 1, False)), (paths, ("path-4n", mul, False))]
     else:
         jobs = [(strict, ("seq-d",)), (cover, ("seq-m",)), (cover, ("seq-b",)), (cover, ("off-s",)), (cover, ("offn-s",)),
                 (sim, (1, "seq-r", 10000, 100)), (sim, (2, "seq-r2", 6000, 200, 50)), (sim, (3, "off-r", 6000, 100)),
-                (sim, (4, "seq-r3", 6000, 100)), (sim, (5, "seq-d", 6000, 60, 7))]
-    with ThreadPoolExecutor(max_workers=3 if quick else 4) as ex:
+                (sim, (4, "seq-r3", 6000, 100)), (sim, (5, "seq-d", 6000, 60, 7)),
+                # every pop order in both rounds for 4 parked packets (ascending, descending at 7 bytes per token, seed-chosen
+                # arrival order with a 13-entry Fenwick array); 5 parked packets: every first-round order, every third history
+                (paths, ("path-4", 1, True)), (paths, ("path-4", 6, True, 7)), (paths, ("path-4n", mul, True)),
+                (paths, ("path-5", 1 + ck.seed % 10, False, 1, 3))]
+    with ThreadPoolExecutor(max_workers=4) as ex:
         futs = [ex.submit(f, *a) for f, a in jobs]
         for f in futs:
             f.result()
     # vacuity control: the replayed histories must have reached every branch the statement talks about
     need = ["push_ok", "push_duplicate_refused", "push_error_byte_limit_only", "push_error_slot_limit_only",
-            "pop_ok", "pop_absent", "pop_ok_at_shifted_index", "pop_ok_with_bytes_behind_save_area", "pop_ok_draining"]
+            "pop_ok", "pop_absent", "pop_ok_at_shifted_index", "pop_ok_with_bytes_behind_save_area", "pop_ok_draining",
+            "pop_ok_at_tail_not_draining", "pop_ok_in_front_of_parked_not_draining",
+            "push_ok_after_tail_pop_in_front_of_earlier_middle_pop"]
     missing = [k for k in need if not ck.cov.get("outcomes", {}).get(k)]
     if missing:
         ck.inconclusive.append("replayed histories never reached: " + ", ".join(missing))
